@@ -185,6 +185,8 @@ struct Shared {
     /// acknowledgements are kept alive until the case ends: the trace identifies commands by their address
     keep: Mutex<Vec<Arc<CommandAcknowledgement>>>,
     progress: AtomicU64,
+    /// per harness thread: 0 = between operations / finished, 1 = inside an API call, 2 = waiting for acknowledgements
+    states: Vec<std::sync::atomic::AtomicU8>,
     shutdown_called: AtomicBool,
     shutdown_started: AtomicBool,
     stop_aux: AtomicBool,
@@ -209,16 +211,18 @@ struct Unawaited {
     ack: Arc<CommandAcknowledgement>,
 }
 
-fn worker_thread(shared: Arc<Shared>, thread: usize, ops: Vec<COp>, barrier: Arc<Barrier>, tids: Arc<Mutex<Vec<i32>>>) {
+fn worker_thread(shared: Arc<Shared>, thread: usize, ops: Vec<COp>, barrier: Arc<Barrier>, tids: Arc<Mutex<Vec<(usize, i32)>>>) {
     mark_harness_thread();
     verif::install(Some(shared.inst.clone()));
-    tids.lock().unwrap().push(unsafe { libc::syscall(libc::SYS_gettid) } as i32);
+    tids.lock().unwrap().push((thread, unsafe { libc::syscall(libc::SYS_gettid) } as i32));
     barrier.wait();
     let inst = shared.inst.clone();
     let mut local: Vec<Rec> = Vec::new();
     let mut unawaited: Vec<Unawaited> = Vec::new();
     let mut keep: Vec<Arc<CommandAcknowledgement>> = Vec::new();
+    let state = &shared.states[thread];
     let await_all = |local: &mut Vec<Rec>, unawaited: &mut Vec<Unawaited>| {
+        state.store(2, Ordering::SeqCst);
         // C11: await the most recent queued acknowledgement first; every earlier one must then be complete already
         let pending: Vec<Unawaited> = std::mem::take(unawaited);
         if pending.is_empty() { return; }
@@ -249,9 +253,11 @@ fn worker_thread(shared: Arc<Shared>, thread: usize, ops: Vec<COp>, barrier: Arc
                 *stalled_slot = stalled;
             }
         }
+        state.store(0, Ordering::SeqCst);
     };
     for (index, op) in ops.iter().enumerate() {
         let start = inst.next_stamp();
+        state.store(1, Ordering::SeqCst);
         let cache = &shared.cache;
         let mut new_write: Option<(Arc<CommandAcknowledgement>, bool)> = None;
         let outcome = catch_unwind(AssertUnwindSafe(|| -> Outcome {
@@ -331,6 +337,7 @@ fn worker_thread(shared: Arc<Shared>, thread: usize, ops: Vec<COp>, barrier: Arc
                 COp::Pause(times) => { for _ in 0..*times { std::thread::yield_now(); } Outcome::Nothing }
             }
         }));
+        state.store(0, Ordering::SeqCst);
         let end = inst.next_stamp();
         let outcome = match outcome {
             Ok(outcome) => outcome,
@@ -386,7 +393,7 @@ pub fn run_conc_case(case: &ConcCase, stall_window: Duration) -> ConcRun {
         inst.set_handler(Some(make_handler(&case.injection, delays.clone(), Arc::new(AtomicU64::new(0)))));
     }
     if case.consumer != ConsumerMode::Free { inst.consumer_gate.close(); }
-    let shared = Arc::new(Shared { cache, inst: inst.clone(), clock: clock.clone(), cfg: case.cfg.clone(), recs: Mutex::new(Vec::new()), keep: Mutex::new(Vec::new()), progress: AtomicU64::new(0), shutdown_called: AtomicBool::new(false), shutdown_started: AtomicBool::new(false), stop_aux: AtomicBool::new(false) });
+    let shared = Arc::new(Shared { cache, inst: inst.clone(), clock: clock.clone(), cfg: case.cfg.clone(), recs: Mutex::new(Vec::new()), keep: Mutex::new(Vec::new()), progress: AtomicU64::new(0), states: (0..case.threads.len()).map(|_| std::sync::atomic::AtomicU8::new(0)).collect(), shutdown_called: AtomicBool::new(false), shutdown_started: AtomicBool::new(false), stop_aux: AtomicBool::new(false) });
     let barrier = Arc::new(Barrier::new(case.threads.len() + 1));
     let tids = Arc::new(Mutex::new(Vec::new()));
     let (done_sender, done_receiver) = std::sync::mpsc::channel::<usize>();
@@ -456,18 +463,21 @@ pub fn run_conc_case(case: &ConcCase, stall_window: Duration) -> ConcRun {
                     // nothing to do: readers never wait for the consumer; released after the read phase below
                 }
                 let idle = last_change.elapsed();
-                if idle > stall_window / 2 && cpu_mark.is_none() {
-                    let ticks: u64 = tids.lock().unwrap().iter().map(|tid| thread_cpu_ticks(*tid)).sum();
-                    cpu_mark = Some((Instant::now(), ticks));
-                }
+                // threads inside an API call (not those that merely wait for an acknowledgement: that wait is the harness's own polling)
+                let in_call: Vec<usize> = (0..case.threads.len()).filter(|thread| shared.states[*thread].load(Ordering::SeqCst) == 1).collect();
+                let ticks_of = |threads: &Vec<usize>| -> u64 { tids.lock().unwrap().iter().filter(|(thread, _)| threads.contains(thread)).map(|(_, tid)| thread_cpu_ticks(*tid)).sum() };
+                if idle > stall_window / 2 && cpu_mark.is_none() { cpu_mark = Some((Instant::now(), ticks_of(&in_call))); }
                 if idle > stall_window {
-                    let ticks: u64 = tids.lock().unwrap().iter().map(|tid| thread_cpu_ticks(*tid)).sum();
+                    let ticks = ticks_of(&in_call);
                     let (_, before) = cpu_mark.unwrap_or((Instant::now(), ticks));
                     let hits: Vec<(usize, u64)> = inst.site_hits.iter().enumerate().map(|(index, hits)| (index, hits.load(Ordering::Relaxed))).filter(|(_, hits)| *hits > 0).collect();
-                    if ticks.saturating_sub(before) <= 2 {
-                        history.blocked = Some(format!("no call returned and no acknowledgement completed for {:?}; {} of {} threads still inside an operation; their CPU time did not move ({} -> {} ticks): parked, not slow. Site hits so far: {:?}", stall_window, case.threads.len() - finished, case.threads.len(), before, ticks, hits));
+                    let waiting: Vec<usize> = (0..case.threads.len()).filter(|thread| shared.states[*thread].load(Ordering::SeqCst) == 2).collect();
+                    if in_call.is_empty() {
+                        history.blocked = Some(format!("no call returned and no acknowledgement completed for {:?}: threads {:?} wait for acknowledgements that never complete (the command worker is blocked or gone). Site hits so far: {:?}", stall_window, waiting, hits));
+                    } else if ticks.saturating_sub(before) <= 3 {
+                        history.blocked = Some(format!("no call returned and no acknowledgement completed for {:?}; threads {:?} are inside an API call that does not return and consumed no CPU ({} -> {} ticks): parked, not slow; threads {:?} wait for acknowledgements. Site hits so far: {:?}", stall_window, in_call, before, ticks, waiting, hits));
                     } else {
-                        history.blocked = Some(format!("INCONCLUSIVE: no progress for {:?} but the threads consumed CPU ({} -> {} ticks)", stall_window, before, ticks));
+                        history.blocked = Some(format!("INCONCLUSIVE: no progress for {:?} but the threads inside API calls consumed CPU ({} -> {} ticks)", stall_window, before, ticks));
                     }
                     break;
                 }
